@@ -233,6 +233,26 @@ class Ctx:
         a, s = norm_cond(e)
         return self.ex._eval_atom(a, s, self.env)
 
+    def ret_status(self, ret):
+        """'fail' / 'ok' / 'unknown' for a returned boolean-or-pointer expression:
+        constant, or a tracked variable / call whose outcome this path has tested."""
+        if ret is None:
+            return 'ok'
+        v = self.const_of(ret)
+        if v is not None:
+            return 'fail' if v == 0 else 'ok'
+        vv = self.var(ret)
+        if vv and vv[0] == 'nz':
+            return 'ok'
+        o = self.origin_call(ret)
+        if o is not None and o[1] == 'result':
+            k = self.result_known(o[0])
+            if k is True:
+                return 'ok'
+            if k is False:
+                return 'fail'
+        return 'unknown'
+
     def atom(self, key):
         return self.env.get(('atom', key))
 
